@@ -229,6 +229,26 @@ pub fn templates() -> Gen<Vec<S>> {
             shout(var("a")),
         ]);
     }
+    // one string with the same placeholder twice (and a different one in between), read in a
+    // callee while the caller holds same-named variables
+    {
+        let twice = E::Str(vec![SP::Var("a".into()), SP::Lit("/".into()), SP::Var("b".into()), SP::Lit("/".into()), SP::Var("a".into()), SP::Lit("/".into()), SP::Var("b".into())]);
+        v.push(vec![
+            make("a", st("global-a")),
+            make("b", st("global-b")),
+            func("callee", &[], vec![shout(twice.clone())]),
+            func("caller", &["b"], vec![make("a", st("callers-a")), S::Expr(call("callee", vec![])), shout(twice.clone())]),
+            S::Expr(call("caller", vec![st("callers-b")])),
+            shout(twice.clone()),
+        ]);
+        v.push(vec![
+            func("rec", &["a", "b"], vec![
+                S::If(bin(Op::Gt, var("a"), num("0")), vec![S::Expr(call("rec", vec![bin(Op::Sub, var("a"), num("1")), sadd(var("b"), st("'"))]))], None),
+                shout(twice.clone()),
+            ]),
+            S::Expr(call("rec", vec![num("2"), st("t")])),
+        ]);
+    }
     // parameter named like a global; recursion re-binding the parameter
     v.push(vec![
         make("a", st("global")),
